@@ -104,6 +104,17 @@ func bodyLimits(rep *kit.Report, scratch string) {
 		fmt.Fprintf(w, "BACKEND n=%d err=%v\n%s", len(b), err, b)
 	}))
 	defer ln.Close()
+	// the same backend on a TCP socket: net/http hands a body of known length to TCPConn.ReadFrom, which reports
+	// the reader's error wrapped in a *net.OpError (a unix socket does not take that path)
+	tln, err := net.Listen("tcp", "127.0.0.1:0")
+	if err != nil {
+		rep.Broken("tcp listen: %v", err)
+	}
+	go http.Serve(tln, http.HandlerFunc(func(w http.ResponseWriter, r *http.Request) {
+		b, err := io.ReadAll(r.Body)
+		fmt.Fprintf(w, "BACKEND n=%d err=%v\n%s", len(b), err, b)
+	}))
+	defer tln.Close()
 	var tables [][]limEntry
 	kit.Subsets(len(tableMenu), 1, len(tableMenu), func(idx []int) {
 		var t []limEntry
@@ -120,15 +131,18 @@ func bodyLimits(rep *kit.Report, scratch string) {
 	})
 	bufs := []int{1, 2, 3, 0, -1, 32768} // 0 -> L, -1 -> L+1
 	for ti, table := range tables {
-		for _, proxied := range []bool{false, true} {
+		for _, mode := range []string{"", "unix", "tcp"} {
+			proxied := mode != ""
 			var cf strings.Builder
 			cf.WriteString("a.test:8080 {\n\tlimits {\n")
 			for _, e := range table {
 				fmt.Fprintf(&cf, "\t\tbody %s %d\n", e.p, e.l)
 			}
 			cf.WriteString("\t}\n")
-			if proxied {
+			if mode == "unix" {
 				fmt.Fprintf(&cf, "\tproxy / unix:%s\n", sock)
+			} else if mode == "tcp" {
+				fmt.Fprintf(&cf, "\tproxy / %s\n", tln.Addr())
 			} else {
 				cf.WriteString("\tverif_probe\n")
 			}
@@ -215,7 +229,7 @@ func bodyLimits(rep *kit.Report, scratch string) {
 										kind = "over-limit-not-cut-at-limit"
 									}
 									if proxied {
-										kind += "/proxied"
+										kind += "/proxied-" + mode
 									}
 									rep.Violation("C17/body/"+kind, fmt.Sprintf("path %s body %d bytes, limit %d, read buffer %d", rp, n, L, buf),
 										limCase{cf.String(), raw, want, got})
@@ -227,7 +241,7 @@ func bodyLimits(rep *kit.Report, scratch string) {
 								if L < 0 {
 									cl = "no-limit-applies"
 								}
-								local[fmt.Sprintf("body/%s/proxied=%v/framing%d/late-eof=%d", cl, proxied, fi, eofMode)]++
+								local[fmt.Sprintf("body/%s/proxied=%v/framing%d/late-eof=%d", cl, mode, fi, eofMode)]++
 							}
 						}
 					}
